@@ -31,7 +31,7 @@ ARMS = ("canonical", "other_key", "other_msg", "other_suite", "pop_confusion", "
 _REQ = [f"arm:{a}" for a in ARMS] + ["verdict:True", "verdict:False", "reached_pairing:False-verdict",
                                       "pop_confusion:sequence", "entry:PopVerify", "entry:Verify:basic", "entry:Verify:aug", "entry:Verify:pop",
                                       "bitflip:flag_bit", "canonical:coordinate_leading_byte=0x1a",
-                                      "canonical:coordinate_leading_byte=0x00", "derived:basic", "derived:aug", "derived:pop", "threads:concurrent_verify", "python_-O:cases"]
+                                      "canonical:coordinate_leading_byte=0x00", "derived:basic", "derived:aug", "derived:pop", "threads:concurrent_verify", "python_-O:cases", "canonical:bytes_subclass_instances"]
 REQUIRED_LABELS = {"quick": _REQ, "thorough": _REQ}
 
 
@@ -72,6 +72,10 @@ def _wrap_pairing():
     _wrapped[0] = True
 
 
+class _Bytes(bytes):
+    pass
+
+
 def o_verify(ctx, case):
     _wrap_pairing()
     suite, entry, sk, msg = case["suite"], case["entry"], case["sk"], unhx(case["msg"])
@@ -94,6 +98,12 @@ def o_verify(ctx, case):
         ctx.check(got is True, "verify", "canonical_rejected", case,
                   f"{entry} refused the canonical signature (arm {case.get('arm')})")
         # "byte-for-byte what Sign produces": tie the canonical string to the library's own signer
+        # the same three strings as instances of a bytes SUBCLASS (HexBytes and the like): still the canonical strings
+        sub_ = (S.PopVerify(_Bytes(pk), _Bytes(cand)) if entry == "PopVerify"
+                else S.Verify(_Bytes(pk), _Bytes(msg), _Bytes(cand)))
+        ctx.check(sub_ is True, "verify", "canonical_rejected_as_bytes_subclass", case,
+                  f"{entry} refused the canonical signature when key, message and signature are instances of a bytes subclass")
+        ctx.label("canonical:bytes_subclass_instances")
         made = S.PopProve(sk) if entry == "PopVerify" else S.Sign(sk, msg)
         ctx.check(made == canon, "verify", "sign_not_canonical", case,
                   f"{'PopProve' if entry == 'PopVerify' else 'Sign'} does not produce the canonical signature")
